@@ -1,8 +1,341 @@
+import Std.Data.HashMap
 import Got.Drv.Common
-/- driver for the msqueue model family (properties C01, C02): to be written -/
-namespace Got.Drv.MSQueue
+import Got.Model.MSQueue
+/-
+drv_msqueue (properties C01, C02)
 
-def main (_args : List String) : IO Unit := do
-  IO.eprintln "drv_msqueue: not implemented"
+  drv_msqueue run                      stdin: script lines, stdout: one model line per script line
+  drv_msqueue explore c01 <stride> <prog…>   schedule set with TRANSITION COVERAGE of the reachable state graph
+  drv_msqueue explore c02 <stride> <prog…>   one line (shortest prefix, busy tid) per reachable state and busy thread
+  drv_msqueue stats <prog…>            number of states / transitions of the configuration
+
+script line:   prog 0:push1,pop 1:push2 | sched 0 0 1 1 0 …            (C01)
+               prog 0:push1,pop 1:push2 | sched 0 0 1 | solo 1          (C02)
+One schedule entry `t` = one model action of thread `t`: the invocation of its next operation when
+it is idle, `tau t` otherwise (= one csched.Step on the real code).  After the schedule, the
+remaining operations are drained (lowest live thread first).
+
+model line:    <step tokens> / <drain tokens> | final head=n<i> tail=n<j> chain=_,v1,v2 rest=v1,v2,nil || wf=ok lin=…
+               (rest = results of an extra thread popping through the API until it gets nil)
+               tokens  t:inv:push:v  t:inv:pop  t:ld:head=n1  t:ld:n0.next=nil  t:cas:n0.next:ok
+                       t:cas:tail:fail  t:ret:push  t:ret:pop=v  t:ret:pop=nil  t:skip  t:crash
+               nodes are named by their position in the linked chain (link order).
+The part before ` || ` is compared with the harness line; the rest is model-only information.
+-/
+namespace Got.Drv.MSQueue
+open Got.Model.MSQueue Got.Spec.Lin Got.Drv
+
+inductive OpK where
+  | push (v : Nat)
+  | pop
+  deriving Repr
+
+structure Cfg where
+  s : State
+  rem : Array (List OpK)
+
+instance : Inhabited Cfg := ⟨⟨init, #[]⟩⟩
+
+def parseOp (w : String) : Option OpK :=
+  if w = "pop" then some .pop
+  else if w.startsWith "push" then (w.drop 4).toString.toNat?.map .push
+  else none
+
+def parseThread (w : String) : Option (List OpK) :=
+  match w.splitOn ":" with
+  | [_, ops] => (ops.splitOn ",").mapM parseOp
+  | _ => none
+
+def parseProg (ws : List String) : Option (Array (List OpK)) :=
+  (ws.mapM parseThread).map List.toArray
+
+def nodeName (s : State) (x : Nat) : String :=
+  if x ∈ s.chain then s!"n{s.chain.idxOf x}" else s!"u{x}"
+
+def optName (s : State) : Option Nat → String
+  | none => "nil"
+  | some x => nodeName s x
+
+def okFail (b : Bool) : String := if b then "ok" else "fail"
+
+/-- the shared access thread `t` is about to perform and its outcome in state `s`. -/
+def accessTok (s : State) (t : Nat) : String :=
+  match s.pc t with
+  | .idle => "idle"
+  | .crash => "crash"
+  | .p1 _ => s!"ld:tail={nodeName s s.tail}"
+  | .p2 _ tl => s!"ld:{nodeName s tl}.next={optName s (s.next tl)}"
+  | .p3 _ _ _ => s!"ld:tail={nodeName s s.tail}"
+  | .p4 _ tl => s!"cas:{nodeName s tl}.next:{okFail (s.next tl = none)}"
+  | .p4h _ tl _ => s!"cas:tail:{okFail (s.tail = tl)}"
+  | .p5 _ tl => s!"cas:tail:{okFail (s.tail = tl)}"
+  | .d1 => s!"ld:head={nodeName s s.head}"
+  | .d2 _ => s!"ld:tail={nodeName s s.tail}"
+  | .d3 hd _ => s!"ld:{nodeName s hd}.next={optName s (s.next hd)}"
+  | .d4 _ _ _ => s!"ld:head={nodeName s s.head}"
+  | .d5h _ tl _ => s!"cas:tail:{okFail (s.tail = tl)}"
+  | .d5 hd _ _ => s!"cas:head:{okFail (s.head = hd)}"
+
+def retTok (t : Nat) (s : State) : String :=
+  match s.log.getLast? with
+  | some (.ret _ .ack) => s!"{t}:ret:push"
+  | some (.ret _ (.val none)) => s!"{t}:ret:pop=nil"
+  | some (.ret _ (.val (some v))) => s!"{t}:ret:pop={v}"
+  | _ => s!"{t}:ret:?"
+
+def isIdle (p : Pc) : Bool := match p with | .idle => true | _ => false
+def isCrash (p : Pc) : Bool := match p with | .crash => true | _ => false
+
+/-- thread `t` can take a step (invoke its next operation, or a tau step). -/
+def live (c : Cfg) (t : Nat) : Bool :=
+  if h : t < c.rem.size then
+    if isCrash (c.s.pc t) then false
+    else if isIdle (c.s.pc t) then !(c.rem[t]).isEmpty
+    else true
+  else false
+
+/-- one schedule entry; returns the new configuration and the tokens. -/
+def stepTid (c : Cfg) (t : Nat) : Cfg × List String :=
+  if !live c t then (c, [s!"{t}:skip"])
+  else if isIdle (c.s.pc t) then
+    match c.rem[t]! with
+    | [] => (c, [s!"{t}:skip"])
+    | .push v :: rest => ({ s := step c.s (.invPush t v), rem := c.rem.set! t rest }, [s!"{t}:inv:push:{v}"])
+    | .pop :: rest => ({ s := step c.s (.invPop t), rem := c.rem.set! t rest }, [s!"{t}:inv:pop"])
+  else
+    let tok := s!"{t}:{accessTok c.s t}"
+    let s' := step c.s (.tau t)
+    let extra :=
+      if isIdle (s'.pc t) then [retTok t s']
+      else if isCrash (s'.pc t) then [s!"{t}:crash"]
+      else []
+    ({ c with s := s' }, tok :: extra)
+
+def firstLive (c : Cfg) : Option Nat := (List.range c.rem.size).find? (live c)
+
+def drain (c : Cfg) : Nat → List String → Cfg × List String
+  | 0, acc => (c, acc ++ ["stuck"])
+  | fuel + 1, acc =>
+    match firstLive c with
+    | none => (c, acc)
+    | some t =>
+      let (c', toks) := stepTid c t
+      drain c' fuel (acc ++ toks)
+
+def drainCap : Nat := 400
+
+def showOp : Op → String
+  | .push v => s!"push{v}"
+  | .pop => "pop"
+
+def showRes : Res → String
+  | .ack => "ack"
+  | .val none => "nil"
+  | .val (some v) => toString v
+
+def showEv : LEv → String
+  | .inv t o => s!"inv{t}:{showOp o}"
+  | .lin t o r => s!"lin{t}:{showOp o}={showRes r}"
+  | .obs t => s!"obs{t}"
+  | .ret t r => s!"ret{t}:{showRes r}"
+
+def finalTok (s : State) : String :=
+  let vals := s.chain.map (fun x => if x = 0 then "_" else toString (s.val x))
+  s!"final head={nodeName s s.head} tail={nodeName s s.tail} chain={",".intercalate vals}"
+
+/-- after everything finished: an extra thread `T` pops until it gets nil (what is left in the queue,
+    through the real API); one unit of fuel per step. -/
+def restLoop (T : Nat) : Nat → State → List String → List String
+  | 0, _, acc => acc ++ ["stuck"]
+  | fuel + 1, s, acc =>
+    if isIdle (s.pc T) then restLoop T fuel (step s (.invPop T)) acc
+    else if isCrash (s.pc T) then acc ++ ["crash"]
+    else
+      let s' := tau s T
+      if isIdle (s'.pc T) then
+        match s'.log.getLast? with
+        | some (.ret _ (.val (some v))) => restLoop T fuel s' (acc ++ [toString v])
+        | _ => acc ++ ["nil"]
+      else if isCrash (s'.pc T) then acc ++ ["crash"]
+      else restLoop T fuel s' acc
+
+def restTok (c : Cfg) : String :=
+  s!"rest={",".intercalate (restLoop c.rem.size drainCap c.s [])}"
+
+def modelInfo (s : State) : String :=
+  let wf := if decide (LinWitness s.log) then "ok" else "bad"
+  s!"wf={wf} lin={joinSp (s.log.map showEv)}"
+
+def initCfg (prog : Array (List OpK)) : Cfg := { s := init, rem := prog }
+
+def runSched (c : Cfg) (sched : List Nat) : Cfg × List String :=
+  sched.foldl (fun (acc : Cfg × List String) t =>
+    let (c', toks) := stepTid acc.1 t
+    (c', acc.2 ++ toks)) (c, [])
+
+/-- solo run of thread `t` until its current operation returns (at most `cap` steps). -/
+def soloRun (c : Cfg) (t : Nat) : Nat → Nat → List String → Cfg × Nat × Bool × List String
+  | 0, k, acc => (c, k, false, acc)
+  | fuel + 1, k, acc =>
+    if isIdle (c.s.pc t) then (c, k, true, acc)
+    else if isCrash (c.s.pc t) then (c, k, false, acc)
+    else
+      let (c', toks) := stepTid c t
+      soloRun c' t fuel (k + 1) (acc ++ toks)
+
+def soloCap : Nat := 10 * K
+
+def runLine (line : String) : String :=
+  match line.splitOn " | " with
+  | progS :: schedS :: rest =>
+    match words progS, words schedS with
+    | "prog" :: pw, "sched" :: sw =>
+      match parseProg pw, sw.mapM parseNat? with
+      | some prog, some sched =>
+        let (c1, toks1) := runSched (initCfg prog) sched
+        match rest with
+        | [] =>
+          let (c2, toks2) := drain c1 drainCap []
+          joinSp toks1 ++ " / " ++ joinSp toks2 ++ " | " ++ finalTok c2.s ++ " " ++ restTok c2 ++ " || " ++ modelInfo c2.s
+        | soloS :: _ =>
+          match words soloS with
+          | ["solo", ts] =>
+            match parseNat? ts with
+            | some t =>
+              if isIdle (c1.s.pc t) || isCrash (c1.s.pc t) then
+                joinSp toks1 ++ s!" | solo {t} notbusy"
+              else
+                let m := mu c1.s t
+                let (c2, k, returned, toks2) := soloRun c1 t soloCap 0 []
+                let r := if returned then "returned" else "spinning"
+                joinSp toks1 ++ s!" | solo {t} steps={k} {r} : " ++ joinSp toks2 ++ " || " ++ s!"mu={m} " ++ modelInfo c2.s
+            | none => "bad-solo"
+          | _ => "bad-solo"
+      | _, _ => "bad-line"
+    | _, _ => "bad-line"
+  | _ => if line.trimAscii.isEmpty then "" else "bad-line"
+
+/-! ### exploration of the reachable state graph of a configuration -/
+
+def showPc : Pc → String
+  | .idle => "i"
+  | .crash => "X"
+  | .p1 n => s!"p1.{n}"
+  | .p2 n tl => s!"p2.{n}.{tl}"
+  | .p3 n tl nx => s!"p3.{n}.{tl}.{nx}"
+  | .p4 n tl => s!"p4.{n}.{tl}"
+  | .p4h n tl x => s!"p4h.{n}.{tl}.{x}"
+  | .p5 n tl => s!"p5.{n}.{tl}"
+  | .d1 => "d1"
+  | .d2 hd => s!"d2.{hd}"
+  | .d3 hd tl => s!"d3.{hd}.{tl}"
+  | .d4 hd tl nx => s!"d4.{hd}.{tl}.{nx}"
+  | .d5h hd tl x => s!"d5h.{hd}.{tl}.{x}"
+  | .d5 hd x v => s!"d5.{hd}.{x}.{v}"
+
+/-- canonical rendering of the non-ghost state + program positions. -/
+def key (c : Cfg) : String :=
+  let s := c.s
+  let heap := (List.range s.nalloc).map (fun x => s!"{s.val x}>{s.next x}")
+  let ths := (List.range c.rem.size).map (fun t => s!"{showPc (s.pc t)}/{(c.rem[t]!).length}")
+  s!"{s.head} {s.tail} {heap} {ths}"
+
+structure Graph where
+  cfgs : Array Cfg := #[]
+  parent : Array (Nat × Nat) := #[]           -- (parent state, tid); root: (0, 0)
+  edges : Array (Array (Nat × Nat)) := #[]    -- per state: (tid, destination)
+  index : Std.HashMap String Nat := {}
+
+partial def bfs (g : Graph) (i : Nat) : Graph :=
+  if h : i < g.cfgs.size then
+    let c := g.cfgs[i]
+    let ts := (List.range c.rem.size).filter (live c)
+    let (g, es) := ts.foldl (fun (acc : Graph × Array (Nat × Nat)) t =>
+      let (g, es) := acc
+      let (c', _) := stepTid c t
+      let k := key c'
+      match g.index[k]? with
+      | some j => (g, es.push (t, j))
+      | none =>
+        let j := g.cfgs.size
+        ({ g with cfgs := g.cfgs.push c', parent := g.parent.push (i, t), edges := g.edges.push #[],
+                  index := g.index.insert k j }, es.push (t, j))) (g, #[])
+    bfs { g with edges := g.edges.set! i es } (i + 1)
+  else g
+
+def explore (prog : Array (List OpK)) : Graph :=
+  let c := initCfg prog
+  bfs { cfgs := #[c], parent := #[(0, 0)], edges := #[#[]], index := ({} : Std.HashMap String Nat).insert (key c) 0 } 0
+
+partial def pathTo (g : Graph) (i : Nat) (acc : List Nat) : List Nat :=
+  if i = 0 then acc
+  else
+    let (p, t) := g.parent[i]!
+    pathTo g p (t :: acc)
+
+def showProg (prog : Array (List OpK)) : String :=
+  let th (i : Nat) (ops : List OpK) : String :=
+    s!"{i}:" ++ ",".intercalate (ops.map (fun | .push v => s!"push{v}" | .pop => "pop"))
+  joinSp ((List.range prog.size).map (fun i => th i prog[i]!))
+
+/-- walk along uncovered edges from state `i` until a state without uncovered out-edge. -/
+partial def walk (g : Graph) (cov : Array (Array Bool)) (i : Nat) (acc : List Nat) : Array (Array Bool) × List Nat :=
+  let es := g.edges[i]!
+  let cv := cov[i]!
+  match (List.range es.size).find? (fun k => !cv[k]!) with
+  | none => (cov, acc.reverse)
+  | some k =>
+    let (t, j) := es[k]!
+    walk g (cov.set! i (cv.set! k true)) j (t :: acc)
+
+partial def emitC01 (out : IO.FS.Stream) (g : Graph) (progS : String) (stride : Nat) : IO Nat := do
+  let mut cov : Array (Array Bool) := g.edges.map (fun es => es.map (fun _ => false))
+  let mut n := 0
+  for i in [0:g.cfgs.size] do
+    let mut more := true
+    while more do
+      let cv := cov[i]!
+      if (List.range cv.size).any (fun k => !cv[k]!) then
+        let (cov', w) := walk g cov i []
+        cov := cov'
+        if n % stride = 0 then
+          out.putStrLn s!"prog {progS} | sched {joinSp ((pathTo g i [] ++ w).map toString)}"
+        n := n + 1
+      else more := false
+  return n
+
+def emitC02 (out : IO.FS.Stream) (g : Graph) (progS : String) (stride : Nat) : IO Nat := do
+  let mut n := 0
+  for i in [0:g.cfgs.size] do
+    let c := g.cfgs[i]!
+    for t in [0:c.rem.size] do
+      if !isIdle (c.s.pc t) && !isCrash (c.s.pc t) then
+        if n % stride = 0 then
+          out.putStrLn s!"prog {progS} | sched {joinSp ((pathTo g i []).map toString)} | solo {t}"
+        n := n + 1
+  return n
+
+def main (args : List String) : IO Unit := do
+  let out ← IO.getStdout
+  match args with
+  | ["run"] => lineLoop (← IO.getStdin) out (fun (_ : Unit) l => ((), runLine l)) ()
+  | "explore" :: mode :: stride :: pw =>
+    match parseProg pw, parseNat? stride with
+    | some prog, some st =>
+      let g := explore prog
+      let st := if st = 0 then 1 else st
+      let n ← if mode = "c02" then emitC02 out g (showProg prog) st else emitC01 out g (showProg prog) st
+      let ne := g.edges.foldl (fun a es => a + es.size) 0
+      IO.eprintln s!"states={g.cfgs.size} transitions={ne} lines={n}"
+      out.flush
+    | _, _ => IO.eprintln "bad program"; IO.Process.exit 2
+  | "stats" :: pw =>
+    match parseProg pw with
+    | some prog =>
+      let g := explore prog
+      let ne := g.edges.foldl (fun a es => a + es.size) 0
+      out.putStrLn s!"states={g.cfgs.size} transitions={ne}"
+    | none => IO.eprintln "bad program"; IO.Process.exit 2
+  | _ => IO.eprintln "usage: drv_msqueue run | explore c01|c02 <stride> <prog…> | stats <prog…>"; IO.Process.exit 2
 
 end Got.Drv.MSQueue
